@@ -101,9 +101,15 @@ func (sv structValue) invoke(fv reflect.Value) Value {
 	if mt.NumIn() > 0 || mt.NumOut() > 2 {
 		return nilValue
 	}
+	if mt.NumOut() == 0 {
+		return nilValue
+	}
 	results := fv.Call([]reflect.Value{})
-	if len(results) > 1 && !results[1].IsNil() {
-		panic(results[1].Interface())
+	// a second result is an error to report only if it is one: time.Time.Zone returns (string, int)
+	if len(results) > 1 {
+		if err, ok := results[1].Interface().(error); ok && err != nil {
+			panic(err)
+		}
 	}
 	return ValueOf(results[0].Interface())
 }
